@@ -92,6 +92,7 @@ type HarnessRun struct {
 	notes      []string
 	nAssert    int
 	abstractMisuse []string
+	taintSites map[string]int
 }
 
 type inputRec struct {
@@ -139,6 +140,13 @@ func (h *HarnessRun) addTaint(e *Engine, kind, pos, fn string) {
 	}
 	h.taintSeen[k] = true
 	h.taints = append(h.taints, TaintFinding{kind, pos, fn})
+}
+
+func (h *HarnessRun) taintSite(k string) {
+	if h.taintSites == nil {
+		h.taintSites = map[string]int{}
+	}
+	h.taintSites[k]++
 }
 
 func (h *HarnessRun) noteLoad(o *Object) {
